@@ -46,7 +46,7 @@ func respell(t *rapid.T, q string) (string, bool) {
 func TestC20_Engine(t *testing.T) {
 	rec := stat.For("C20")
 	rec.Rule("databases x queries x a re-spelling of the query in which each rune may be replaced by any member of its unicode.SimpleFold orbit when that orbit is case-regular (computed; excludes U+017F-style orbits, admits U+212A), all option combinations. Oracle: identical ranked (index, score bits) lists from SearchUniversal, from the cached layer (first spelling fills the cache, second must be answered identically), from SearchWithPipelineOptions, and identical GetSuggestions. Non-trivial = the re-spelling differs from the original and the answer is non-empty.")
-	rec.RequireShare("fallback-path", 0.05)
+	rec.RequireShare("fallback-path", 0.03)
 	rec.RequireShare("non-ascii-respelling", 0.08)
 	rapid.Check(t, func(t *rapid.T) {
 		cmds, cls := gen.DB(t, gen.CmdOpts{Platforms: true, Unicode: rapid.IntRange(0, 2).Draw(t, "u") == 0}, []int{0, 1, 3, 10, 1})
